@@ -82,6 +82,9 @@ def run(prog, chk):
     frontends(prog, chk)
     utf8_boundary(prog, chk)
     infinite_iterators(prog, chk, reach)
+    retry_amplification(prog, chk)
+    from props import C17
+    C17.scope_var_limit(prog, chk)  # unbounded growth of scope variables is memory exhaustion (abort)
 
 
 def utf8_boundary(prog, chk):
@@ -380,3 +383,82 @@ def infinite_iterators(prog, chk, reach):
                     if o[0] == "call" and o[1] in inf and Callee(o[2]["fn"]).decl_path == "std::iter::IntoIterator::into_iter":
                         chk.bad("A4.endless-iterator", f"{b.short}:for-loop", b.where(h), f"{b.short}: a `for` loop runs directly over an endless iterator")
     chk.floor("A4.endless-iterator", n_src, 4, "call producing an endless iterator (attr_split_cycle / cycle)")
+
+
+def retry_amplification(prog, chk):
+    """A retry loop that sits inside a recursive cycle multiplies its passes at every nesting level: if each level may
+    run its body twice, N levels cost 2^N.  process_tags is such a loop (it is on the element-nesting cycle), so its
+    decision to go round again must depend on progress that is *shared across levels* (a call on / field of the
+    context), not only on its own local lists - otherwise a pass that cannot help is repeated at every level."""
+    b = prog.body("svgdx::transform::process_tags")
+    chk.touch(b)
+    scc = [c for c in prog.sccs() if b.id in c]
+    in_cycle = bool(scc) and len(scc[0]) > 1
+    loops = [(h, blocks) for h, blocks in b.loops.items() if not iterator_driven_header(b, h, blocks)]
+    if not in_cycle or not loops:
+        chk.anchor_missing("A4.retry-amplification", f"process_tags: recursive cycle ({in_cycle}) / retry loop ({len(loops)}) not found")
+        return
+    h, blocks = max(loops, key=lambda x: len(x[1]))
+    # the no-progress exit: blocks in the loop that construct MultiError
+    exits = {x for x in blocks | set(b.reachable) for st in b.stmts(x) if st.get("rv", {}).get("k") == "aggr" and st["rv"].get("variant") == "MultiError" and st["rv"].get("adt") == "svgdx::errors::SvgdxError"}
+    if not exits:
+        chk.anchor_missing("A4.retry-amplification", "process_tags: the no-progress exit (MultiError) not found")
+        return
+    # conditions that decide between that exit and another pass
+    from sa import discharge as D
+    shared = False
+    for e in exits:
+        for (a, x) in D.dominating_edges(b, e):
+            if a not in blocks:
+                continue
+            inner = R.loop_containing(b, a)
+            if inner is None or inner[0] != h:
+                continue
+            t = b.term(a)
+            if t["k"] != "switch":
+                continue
+            if _derives_from_context(b, t["op"]):
+                shared = True
+    # also conditions on the *continue* side: the exit may be the fall-through of an `||`
+    if not shared:
+        for x in blocks:
+            t = b.term(x)
+            inner = R.loop_containing(b, x)
+            if inner is None or inner[0] != h:
+                continue  # inside the per-tag `for` loop: not part of the go-round-again decision
+            if t["k"] == "switch":
+                if _derives_from_context(b, t["op"]):
+                    tt, ft = R.switch_targets_bool(t)
+                    if (b.reach([tt], avoid={h}) & exits) or (b.reach([ft], avoid={h}) & exits):
+                        shared = True
+    chk.ob(shared, "A4.retry-amplification", "process_tags", b.where(h), "the retry loop on the element-nesting cycle goes round again only if progress recorded in the shared context has advanced (passes do not multiply per nesting level)", "process_tags (a retry loop on the recursive element-nesting cycle) decides to retry from its own local lists only: an unresolvable element inside N nested containers is re-evaluated at every level - 2^N evaluations within the depth limit (time not proportional to the document)")
+
+
+def iterator_driven_header(body, h, blocks):
+    from props import C01_loops
+    return bool(C01_loops.iterator_driven(body, h, blocks))
+
+
+def _derives_from_context(body, op, depth=6):
+    """does the operand come from a call on / a field of a `&mut TransformerContext` parameter?"""
+    o = R.origin(body, op, carriers={})
+    if o[0] == "call" and "fn" in o[2]:
+        c = Callee(o[2]["fn"])
+        if c.path.startswith("svgdx::context::TransformerContext::"):
+            return True
+        if depth > 0:
+            return any(_derives_from_context(body, a, depth - 1) for a in o[2]["args"])
+    if o[0] == "field":
+        ty = body.local_ty(o[1][0]) or ""
+        return "TransformerContext" in ty
+    if o[0] == "rv" and depth > 0:
+        rv = o[1]
+        if rv.get("k") in ("cast", "use") and rv.get("op") is not None:
+            return _derives_from_context(body, rv["op"], depth - 1)
+        if rv.get("k") == "aggr":
+            return any(_derives_from_context(body, a, depth - 1) for a in rv.get("ops", []))
+        if rv.get("k") == "binop":
+            return any(_derives_from_context(body, rv[sd], depth - 1) for sd in ("a", "b"))
+        if rv.get("k") == "unop":
+            return _derives_from_context(body, rv["a"], depth - 1)
+    return False
